@@ -13,7 +13,7 @@ use serde_json::Value;
 use swc_common::{
     comments::{Comments, SingleThreadedComments},
     sync::Lrc,
-    BytePos, FileName, SourceMap, Spanned as _,
+    BytePos, FileName, SourceMap,
 };
 use swc_ecma_ast as ast;
 use swc_ecma_parser::{lexer::Lexer, Parser, StringInput, Syntax, TsConfig};
